@@ -527,8 +527,9 @@ std::string sqf::parser::preprocessor::impl_default::instance::handle_arg(::sqf:
                 auto res = try_get_macro(word);
                 if (res.has_value())
                 {
-                    if (res.value().is_callable())
-                    {
+                    if (res.value().is_callable() && !part_of_word)
+                    { // give back the character that ended the word, it might be the '(' of the arguments
+                      // (a word that ends with the argument itself was not followed by anything we consumed)
                         local_fileinfo.move_back();
                     }
                     auto handled = handle_macro(runtime, local_fileinfo, original_fileinfo, res.value(), param_map);
